@@ -74,6 +74,9 @@ def scenarios():
     ]})
     # 2: tasks
     s.append({"id": "tasks", "script": [], "steps": [
+        # the shell exits at once, a child keeps both pipes and writes later than any grace period a pump join might have: whatever
+        # it writes belongs to the stream before its terminal frame and to the snapshot (the next steps give it seconds to show up)
+        {"do": "task", "payload": {"tool": "bash", "args": {"command": "echo early; (sleep 2.6; echo late; echo late-err >&2) & exit 0"}}},
         {"do": "task", "payload": {"tool": "bash", "args": {"command": "echo one; echo two >&2; printf 'é漢'; exit 2"}}},
         {"do": "task", "payload": {"tool": "bash", "title": "t " + UNI, "args": {"command": "echo start; sleep 5"}}, "cancel_after_ms": 300, "patience_ms": 3000},
         {"do": "task", "payload": {"tool": "bash", "args": {"command": 12}}},
@@ -488,6 +491,30 @@ def run(tier, seed):
                       "frames are compared as canonical JSON values (key order and whitespace ignored)",
                       "a crash between publishing a frame and appending it to the log is outside the model",
                       "payload mutants that the deserialiser refuses (enum values, wrong types) are not frames the system can emit and are skipped"]
+    # ---- nothing in the sidecar that is not in the log, also when the log refuses an append (Replicas_fail: the log append is
+    # the step that may fail): every kind of thread append with an injected failure of its first / second log append, the
+    # thread's sidecar compared with its frames in the log after every call, and again after a restart and a further append
+    base = [{"op": "ensure_default"}, {"op": "message", "t": 0}, {"op": "message", "t": 0}, {"op": "run_spawned", "t": 0, "m": 0, "s": 0}]
+    failing = [("message", {"op": "message", "t": 0}), ("run_spawned", {"op": "run_spawned", "t": 0, "m": 1, "s": 1}), ("run_ended", {"op": "run_ended", "t": 0, "m": 0, "s": 0}),
+               ("side_effects", {"op": "side_effects", "t": 0, "m": 0, "s": 0}), ("cursor_update", {"op": "cursor_update", "t": 0}),
+               ("checkpoint", {"op": "checkpoint", "t": 0, "to_msg": 0, "summary": "s"}), ("auto", {"op": "auto", "t": 0, "stride": 1, "max_new": 2}),
+               ("compile", {"op": "compile", "t": 0, "m": 1, "s": 1, "record": True}), ("branch", {"op": "branch", "t": 0}), ("handoff", {"op": "handoff", "t": 0, "summary": "h"})]
+    fcases = []
+    for name, op in failing:
+        for nth in (1, 2):
+            fcases.append({"id": f"refused-{name}-{nth}", "watch_sidecar": True,
+                           "ops": base + [dict(op, fail_append=nth), {"op": "replay", "t": 0}, {"op": "restart"}, {"op": "replay", "t": 0}, {"op": "message", "t": 0}, {"op": "replay", "t": 0}]})
+    for res in run_harness("hist", fcases, wd, "refused", shards=min(10, len(fcases)), timeout=900):
+        c = [x for x in fcases if x["id"] == res["id"]][0]
+        v.add_eval({"refused_append": res["id"]}, True)
+        for k, r_ in enumerate(res["results"]):
+            sc_ = r_.get("sidecar")
+            if sc_ and (sc_["sidecar_only"] or not sc_["is_prefix"]):
+                v.violation(f"history {res['id']}: after call {k} ({c['ops'][k].get('op')}{' with a refused log append' if 'fail_append' in c['ops'][k] else ''}) the thread's sidecar holds "
+                            f"{sc_['sidecar_lines']} frames, the log {sc_['log_frames']}; {sc_['sidecar_only']} of them are not in the log (is a prefix of the log: {sc_['is_prefix']})",
+                            {"engine": "refused", "case": c})
+                break
+    v.cov["refused_append_histories"] = len(fcases)
     # the repository's own tests as drivers: every recorded execution against the monitor half of System.tla
     from .. import suite
     suite.check(v, wd)
@@ -501,6 +528,15 @@ def replay(path, seed):
     with open(path) as f:
         rep = json.load(f)
     c = rep["case"]
+    if c.get("engine") == "refused":
+        wd = workdir(PROP + "-replay")
+        res = run_harness("hist", [c["case"]], wd, "replay")[0]
+        bad = [(k, r_["sidecar"]) for k, r_ in enumerate(res["results"]) if r_.get("sidecar") and (r_["sidecar"]["sidecar_only"] or not r_["sidecar"]["is_prefix"])]
+        print(json.dumps(bad[:3]))
+        if bad:
+            print(f"VIOLATION property={PROP} replay={path}")
+            return 1
+        return 0
     if c.get("engine") == "suite":
         from .. import suite
         return suite.replay(PROP, path, c)
